@@ -139,9 +139,8 @@ def lex(data):
                     emit("ml", v, i, end)
                     i = end
                     continue
-                emit("junk", "", i, n)
-                return toks, spans, note
-            # "text" not followed by a proper multi-line start: lex as identifier, then ':' fails below
+            # no complete multi-line string here: "text" is an identifier, and the ':' after it fails below
+            # (or starts a tag) -- same reading as spec/SieveLex.tla
         if c in ALPHA:
             j = i + 1
             while j < n and (data[j] in ALPHA or data[j] in DIGIT):
